@@ -196,13 +196,18 @@ class Optimizer:
         """
         for group in self._optimization_groups:
             group.calculate(self._parameters)
-        self._parameter_history.append(
-            self._parameters, self.get_current_optimization_iteration(self._tee.read())
-        )
 
         penalties = [group.get_full_penalty() for group in self._optimization_groups]
+        full_penalty = np.concatenate(penalties) if len(penalties) != 1 else penalties[0]
 
-        return np.concatenate(penalties) if len(penalties) != 1 else penalties[0]
+        # Only parameter sets which could be evaluated are recorded, since the history is
+        # used to restore the parameters if the optimization fails.
+        if np.all(np.isfinite(full_penalty)):
+            self._parameter_history.append(
+                self._parameters, self.get_current_optimization_iteration(self._tee.read())
+            )
+
+        return full_penalty
 
     def create_result(self) -> Result:
         """Create the result of the optimization.
